@@ -224,6 +224,8 @@ type Model interface {
 	Return(m *Machine, st *State, ret *ssa.Return, results []AV)
 	BackEdge(m *Machine, st *State, from, to *ssa.BasicBlock)
 	Branch(m *Machine, st *State, in *ssa.If, cond AV, taken bool)
+	// TypeTest may decide a comma-ok assertion (nil = unknown)
+	TypeTest(m *Machine, st *State, in *ssa.TypeAssert, operand AV) *bool
 }
 
 type BaseModel struct{}
@@ -236,6 +238,7 @@ func (BaseModel) LoadGlobal(*Machine, *State, *ssa.Global) ([]AV, bool)    { ret
 func (BaseModel) Return(*Machine, *State, *ssa.Return, []AV)               {}
 func (BaseModel) BackEdge(*Machine, *State, *ssa.BasicBlock, *ssa.BasicBlock) {}
 func (BaseModel) Branch(*Machine, *State, *ssa.If, AV, bool)               {}
+func (BaseModel) TypeTest(*Machine, *State, *ssa.TypeAssert, AV) *bool     { return nil }
 
 type condInfo struct {
 	X      string // symbolic operand
@@ -811,7 +814,9 @@ func (m *Machine) step(st *State, fr *Frame, in ssa.Instruction) {
 		if x.CommaOk {
 			okName := "ok:" + a.S + ".(" + tname + ")"
 			var okAV AV
-			if ty, known := st.Facts["type:"+a.S]; known {
+			if dec := m.Model.TypeTest(m, st, x, a); dec != nil {
+				okAV = BoolV(*dec)
+			} else if ty, known := st.Facts["type:"+a.S]; known {
 				okAV = BoolV(ty.S == tname || (isInterfaceType(x.AssertedType) && implementsByName(m, ty.S, x.AssertedType)))
 			} else if nt, ok := st.Facts["nottype:"+a.S]; ok && strings.Contains(nt.S+"|", "|"+tname+"|") {
 				okAV = BoolV(false)
